@@ -181,7 +181,8 @@ class DriveResult:
 
 
 class Violation:
-    def __init__(self, prop, signature, message, case_text=None, workload=None, detail=None):
+    def __init__(self, prop, signature, message, case_text=None, workload=None, detail=None, placement=None):
+        self.placement = placement   # (build name, scheduler) of the drive that produced the witness
         self.prop = prop
         self.signature = signature
         self.message = message
@@ -264,6 +265,7 @@ class Env:
         reported in the result (timed_out) and recorded as inconclusive by the caller."""
         binary = self.build(build)
         bname = build if isinstance(build, str) else build.name
+        self.last_placement = (bname, sched)
         cases = os.path.join(self.work, "%s.%s.case" % (name, bname))
         events = os.path.join(self.work, "%s.%s.%s.ev" % (name, bname, sched.replace(":", "_")))
         with open(cases, "w") as fh:
@@ -340,7 +342,7 @@ class Env:
             self.inconclusive.append(i)
 
     def violation(self, signature, message, case_text=None, workload=None, detail=None):
-        self.violations.append(Violation(self.prop, signature, message, case_text, workload, detail))
+        self.violations.append(Violation(self.prop, signature, message, case_text, workload, detail, getattr(self, "last_placement", None)))
 
     def sample(self, s):
         if len(self.samples) < 12:
@@ -395,7 +397,9 @@ def finish(env, module):
         v = vs[0]
         path = os.path.join(VERIF, "replays", "%s-%d-%d.case" % (env.prop, env.seed, n))
         with open(path, "w") as fh:
-            fh.write("# property=%s workload=%s tier=%s seed=%d\n" % (env.prop, v.workload or "-", env.tier, env.seed))
+            pl = v.placement if v.placement and v.placement[0] in BUILDS else None
+            fh.write("# property=%s workload=%s tier=%s seed=%d%s\n" % (env.prop, v.workload or "-", env.tier, env.seed,
+                                                                     " build=%s sched=%s" % pl if pl else ""))
             fh.write("# signature=%s\n" % sig)
             for line in v.message.splitlines():
                 fh.write("# %s\n" % line)
@@ -501,7 +505,17 @@ def generic_replay(env, module, path, build="checked"):
     mon = module.MONITORS.get(wl)
     if mon is None:
         raise Inconclusive("replay: workload %r has no session monitor" % wl)
-    res = env.drive("replay", text, build=build)
+    # the witness is replayed under the build and scheduler it was found with (a small-stack or release-only effect
+    # does not show on the default build)
+    if head.get("build") in BUILDS:
+        build = head["build"]
+    sched = head.get("sched", "seq")
+    if not sched.startswith(("seq", "stack:")):
+        sched = "seq"
+    res = env.drive("replay", text, build=build, sched=sched)
+    if sched.startswith("stack:") and res.rc not in (0, None) and "overflowed its stack" in (res.stderr or ""):
+        env.violation("%s:replay:stack_overflow" % env.prop, "replayed on a %s KiB-stack thread: the process died with a stack overflow" % sched.split(":")[1], case_text=text, workload=wl)
+        return
     env.require_complete(res, "replay")
     env.pmap(mon, res.sessions, extra=getattr(module, "REPLAY_EXTRA", None), workload=wl, procs=1)
     env.count("evaluations", sum(len(s.ops) for s in res.sessions))
